@@ -6,7 +6,7 @@ from cgsim import gen as G, ref
 from cgsim.core import fp, Skip, state_digest
 
 ID = "C10"
-QUICK = dict(worlds=16, runs=250, seconds=25)
+QUICK = dict(worlds=16, runs=500, seconds=25)
 THOROUGH = dict(worlds=256, runs=2500, seconds=30)
 RULE = ("seeded blackbox-free lint-clean circuits (<= 5 inputs, <= 10 gates) x all 3^n ternary patterns x three "
         "choices of the arbitrary binary values under X; distinct = canonical net; non-trivial = some gate is X for "
@@ -19,14 +19,19 @@ def gen(rng, tier):
     style = rng.choice(("plain", "plain", "underscore"))
     net = G.gen_net(rng, n_inputs=(1, 5), n_gates=(1, 10), types=G.swarm_types(rng), max_arity=rng.randint(2, 5),
                     constants=0.35, name_style=style, input_outputs=0.1, parity_bias=rng.choice((0.0, 0.3)))
-    if rng.random() < 0.15:
-        # names that look like the helper names ternary() creates
+    if rng.random() < 0.3:
+        # names that look like (or are stems / case variants of) the helper names ternary() creates, so that a
+        # companion "<name>_X" or a uniquified helper can collide with them
         names = [n for n in net["nodes"]]
-        a = rng.choice(names)
-        victim = rng.choice(names)
-        new = rng.choice((f"{a}_X", f"{a}_x_in_fi", f"{a}_is_0", f"{a}_is_1", f"{a}_not_x", f"{a}_0_not_in_fi"))
-        if new not in net["nodes"] and victim != a:
-            net = G.rename(net, {victim: new})
+        for _ in range(rng.randint(1, 2)):
+            a = rng.choice(names)
+            victim = rng.choice(names)
+            w = rng.choice(("X", "x_in_fi", "is_0", "is_1", "not_x", "0_not_in_fi", "1_not_in_fi", "not", "is", "x_in",
+                            "0_not_in", "1_not_in", "x", "not_X", "X_0", "x_in_fi_0", "is_0_0", "not_x_0", "X_X"))
+            new = f"{a}_{w}"
+            if new not in net["nodes"] and victim != a and a in net["nodes"] and victim in net["nodes"]:
+                net = G.rename(net, {victim: new})
+                names = [n for n in net["nodes"]]
     return {"net": net, "arb_seed": rng.getrandbits(30), "peer": {"seed": rng.getrandbits(32)}}
 
 
@@ -40,7 +45,7 @@ def run(case, ctx):
     if len(ins) > 5 or any(v[0] == "x" for v in net["nodes"].values()):
         raise Skip("bounds")
     nodes = net["nodes"]
-    if any(n.endswith(("_X", "_x_in_fi", "_is_0", "_is_1", "_not_x", "_0_not_in_fi")) for n in nodes):
+    if any(n.endswith(("_X", "_x_in_fi", "_is_0", "_is_1", "_not_x", "_0_not_in_fi", "_not", "_is", "_x", "_not_X")) for n in nodes):
         ctx.probe("name_clash_X")
     feats = G.features(net)
     for f in ("multi1", "const"):
